@@ -487,9 +487,14 @@ func (s *fsm13) transitionAfterACK(result ACKResult, peerRetransmit bool) receiv
 		return receivedFlightTransition{state: StateWaiting}
 	}
 	if result.Empty || len(result.Messages) != 0 || peerRetransmit {
-		return receivedFlightTransition{
-			state: handleRetransmitTimeout(s.retransmit, &s.retransmitInterval, s.cfg),
+		// What the peer still misses is sent again at once. This is an answer
+		// to a received datagram, not a timeout: the retransmission interval
+		// doubles only when the timer fires.
+		if s.retransmit {
+			return receivedFlightTransition{state: StateSending}
 		}
+
+		return receivedFlightTransition{state: StateWaiting}
 	}
 
 	return receivedFlightTransition{state: StateWaiting}
